@@ -16,17 +16,24 @@ def run_check(args):
     return pid, p.returncode, lines[:3]
 
 
-for wt in sorted(glob.glob("/tmp/neut_*")):
-    for pd in sorted(glob.glob(wt + "/NEUTRAL/*/patch.diff")):
-        tag = "%s/%s" % (os.path.basename(wt), os.path.basename(os.path.dirname(pd)))
-        if which and tag not in which:
+EVAL_WT = "/tmp/neval_wt"      # the patches are applied in a scratch worktree of our own, never in a sub-agent's (it may still be working)
+if not os.path.isdir(EVAL_WT):
+    subprocess.run(["git", "-C", "/repo", "worktree", "add", "-q", "--detach", EVAL_WT, "HEAD"], check=True)
+subprocess.run(["git", "-C", EVAL_WT, "checkout", "-q", "--detach", subprocess.run(["git", "-C", "/repo", "rev-parse", "HEAD"], capture_output=True, text=True).stdout.strip()])
+for src in sorted(glob.glob("/tmp/neut_*")):
+    for pd in sorted(glob.glob(src + "/NEUTRAL/*/patch.diff")):
+        tag = "%s/%s" % (os.path.basename(src), os.path.basename(os.path.dirname(pd)))
+        if which and tag not in which and os.path.basename(src) not in which:
             continue
+        wt = EVAL_WT
         subprocess.run(["git", "-C", wt, "checkout", "-q", "--", "."])
         r = subprocess.run(["git", "-C", wt, "apply", pd], capture_output=True, text=True)
         if r.returncode:
             print(tag, "APPLY FAILED", r.stderr[:200])
             continue
         os.makedirs("/tmp/seed_evidence/%s" % os.path.basename(wt), exist_ok=True)
+        if not which:
+            raise SystemExit("name the worktrees / patches to evaluate (e.g. neut_13 or neut_13/02)")
         with ThreadPoolExecutor(16) as ex:
             res = list(ex.map(run_check, [(p, wt) for p in PIDS]))
         subprocess.run(["git", "-C", wt, "checkout", "-q", "--", "."])
